@@ -571,6 +571,29 @@ static std::string shape_of_text(const std::string &t)
   return o;
 }
 
+// letters followed by digits (register names) lose their digits: r12 -> r#
+static std::string reg_abstract(const std::string &t)
+{
+  std::string o;
+  size_t i = 0;
+  while (i < t.size())
+  {
+    if (isalpha((unsigned char)t[i]) && (i == 0 || !isalnum((unsigned char)t[i - 1])))
+    {
+      size_t j = i;
+      while (j < t.size() && isalpha((unsigned char)t[j])) { j++; }
+      size_t k = j;
+      while (k < t.size() && isdigit((unsigned char)t[k])) { k++; }
+      o += t.substr(i, j - i);
+      if (k > j && (k == t.size() || !isalnum((unsigned char)t[k]))) { o += '#'; i = k; }
+      else { i = j; }
+      continue;
+    }
+    o += t[i++];
+  }
+  return o;
+}
+
 static void c07scan_child(const NvCpu *cpu, int lo, int hi, int step, int tails, int stails, uint32_t addr, int fd, int emit, int deep)
 {
   std::set<std::string> emitted;
@@ -623,6 +646,17 @@ static void c07scan_child(const NvCpu *cpu, int lo, int hi, int step, int tails,
         unknown++;
         continue;
       }
+      if (emit == 2)
+      {
+        // listing mode: one accepted rendering per (mnemonic, operand shape); nothing else is checked
+        if (!emitted.insert(reg_abstract(shape_of_text(t))).second) { continue; }
+        std::string bb;
+        std::string st = t;
+        bool okk = asm_one(cpu, addr, st, bb);
+        if (!okk) { st = strip_annotation(t); okk = (st != t) && asm_one(cpu, addr, st, bb); }
+        if (okk) { accepted++; out += std::string("text\t") + st + "\n"; }
+        continue;
+      }
       std::string b2;
       std::string used = t;
       const char *mode = "plain";
@@ -634,7 +668,7 @@ static void c07scan_child(const NvCpu *cpu, int lo, int hi, int step, int tails,
       }
       if (!ok) { continue; }
       accepted++;
-      if (emit && emitted.insert(shape_of_text(used)).second) { out += std::string("text\t") + used + "\n"; }
+      if (emit == 1 && emitted.insert(shape_of_text(used)).second) { out += std::string("text\t") + used + "\n"; }
       // second decode: the re-assembled bytes followed by the original tail
       for (size_t i = 0; i < b2.size() && i < 20; i++) { mem.write8(addr + i, (uint8_t)b2[i]); }
       std::string t2;
